@@ -7,6 +7,7 @@ import (
 	"math/big"
 	"sort"
 
+	"github.com/lianxiangcloud/linkchain/libs/ser"
 	"github.com/lianxiangcloud/linkchain/types"
 )
 
@@ -194,8 +195,51 @@ func (k *kase) aliasing() {
 	check("a validator previously given to Add/Update")
 }
 
+// reloadedCopies: the path of a restarted node. The set comes back from its stored encoding (LoadStatus /
+// LoadValidators decode it: the cached proposer is then an object of its own, no element of the list) and is
+// copied before the consensus state, the evidence pool and the fast-sync reactor use it. The copy of the
+// reloaded set must name the proposer the running nodes have, now and after further rotation.
+func (k *kase) reloadedCopies() {
+	O := types.NewValidatorSet(k.vals)
+	for i, n := 0, k.r.Range(0, 6); i < n; i++ {
+		O.IncrementAccum(1)
+	}
+	O.GetProposer() // as a running node has it cached
+	enc, err := ser.EncodeToBytes(O)
+	if err != nil {
+		k.viol("copy/validator-set-not-encodable", err.Error(), nil)
+		return
+	}
+	L := &types.ValidatorSet{}
+	if err := ser.DecodeBytes(enc, L); err != nil {
+		k.viol("copy/validator-set-not-decodable", err.Error(), nil)
+		return
+	}
+	k.c.Count("copy_of_reloaded_set_checks", 1)
+	chain := []*types.ValidatorSet{L.Copy()}
+	chain = append(chain, chain[0].Copy())
+	for steps := 0; steps < 3; steps++ {
+		want := snapOf(O)
+		for ci, C := range chain {
+			if d := diff(snapOf(C), want); d != "" {
+				k.viol("copy/copy-of-reloaded-set-differs-from-running-set", fmt.Sprintf("a set decoded from its stored encoding and copied (%d times) differs from the set that kept running in %s after %d further rotation steps", ci+1, d, steps),
+					map[string]interface{}{"running": want.view(), "reloaded_copy": snapOf(C).view()})
+				return
+			}
+		}
+		n := k.r.Range(1, 3)
+		for i := 0; i < n; i++ {
+			O.IncrementAccum(1)
+			for _, C := range chain {
+				C.IncrementAccum(1)
+			}
+		}
+	}
+}
+
 func (k *kase) copies() {
 	k.aliasing()
+	k.reloadedCopies()
 	for dir := 0; dir < 2; dir++ {
 		O := types.NewValidatorSet(k.vals)
 		for i, n := 0, k.r.Range(0, 5); i < n; i++ {
